@@ -181,6 +181,8 @@ class G:
             if r < 0.85:
                 return Un("!", self.expr("bool", d - 1))
             return self.leaf("bool")
+        if self.effects and t in ("i32", "u8", "i64", "u16") and r < 0.12:
+            return HostM("msub", self.expr(t, d - 1), [self.expr(t, d - 1)], t)
         if r < 0.5:
             ops = ["+", "-", "*"] + (["/", "%"] if self.allow_div and t in INT_T else []) + (["/"] if t in FLT_T and False else [])
             if t in FLT_T:
@@ -620,6 +622,11 @@ def f7_cells():
         "compound_rhs_effect": ([Let("x", t, pu(a)), Assign(x, pu(b), "-"), Assign(x, pu(c), "*")], x, []),
         "statement_order": ([ExprStmt(em(a)), Let("x", t, pu(b)), ExprStmt(em(x)), Assign(x, pu(c))], x, []),
         "block_in_operand": ([], Bin("+", Block([ExprStmt(em(a))], pu(b), t), Block([ExprStmt(em(c))], pu(a), t), t), []),
+        "method_receiver_then_args": ([], HostM("msub", pu(a), [pu(b)], t), []),
+        "method_chain": ([], HostM("msub", HostM("msub", pu(a), [pu(b)], t), [pu(c)], t), []),
+        "method_receiver_var_then_arg_assigns": ([Let("x", t, a)], HostM("msub", x, [Block([Assign(x, pu(b))], c, t)], t), []),
+        "method_arg_nested": ([], HostM("msub", pu(a), [HostM("msub", pu(b), [pu(c)], t)], t), []),
+        "method_in_operand": ([], Bin("-", HostM("msub", pu(a), [b], t), HostM("msub", pu(c), [pu(a)], t), t), []),
         "emit7_positions": ([ExprStmt(Host("emit7", [Lit("u8", 1), Lit("i64", -2), Lit("u16", 3), pu(a), Lit("u64", 5), Lit("i8", -6), Lit("u32", 7)], "unit"))], b, []),
     }
     for op in ["+", "-", "*", "<", "<=", "==", "!="]:
